@@ -852,6 +852,19 @@ def c11_gen(ctx, intensive=False):
     for i in range(120 if ctx.quick() and not intensive else 1500):
         cid = 'lg%d' % i
         cases.append(build(cid, i % 4, rng.randrange(2), rng.choice([1, 2, 3]), lambda: rng.choice([0, 1, 1, 2, 5])))
+    # header bytes 12-13 (closing flag, extra length) are outside the AEAD (known finding F3): a frame with a bit of
+    # them flipped still authenticates and is ACTED UPON - in order on a stream of its own, where its (now arbitrary)
+    # closing flag takes effect at once.  Whatever it means, the process must not crash and the other stream goes on.
+    for method in (0, 1, 2, 3):
+        for un in (0, 1):
+            for bit in range(16):
+                if bit == 1:
+                    continue        # closing flag 2 = a session-closing notice: the session closes, as it would for a genuine one
+                for seq in ((0,) if ctx.quick() and not intensive else (0, 3)):
+                    cid = 'lh%d' % n; n += 1
+                    toks = ['V:0:1:0:0:41', 'Q', 'H:0:%d:2:%d:4242' % (bit, seq), 'Q', 'V:0:1:1:0:43', 'Q']
+                    plan = [('V', 1, 0, '41'), ('Q',), ('G', ['header-bit(%d)' % bit]), ('Q',), ('V', 1, 0, '43'), ('Q',)]
+                    cases.append((cid, '%s L %d %d 1 %s' % (cid, method, un, ' '.join(toks)), dict(method=method, unordered=un, nconn=1, plan=plan, relaxed=1)))
     return cases
 
 
@@ -908,6 +921,16 @@ def c11_loop(ctx, verdict, intensive=False):
     broken = []
     cases = c11_gen(ctx, intensive)
     rc, log, impl, dt = c11_run(ctx, [c[1] for c in cases], 'loop')
+    if rc != 0 and 'panic' in log:
+        # the process died inside a case: name it (the driver flushes one line per finished case)
+        first = next(((cid, line, meta) for cid, line, meta in cases if cid not in impl), None)
+        if first:
+            m = re.search(r'panic: [^\n]*', log)
+            verdict.oracle_failure('loop:process-crash', 'C11 oracle (records through the receive loop): the process crashed while the session was processing received records (%s)' % (m.group(0)[:160] if m else 'panic'),
+                                   dict(kind='window', driver='c11', case=first[1], meta=first[2], implementation='PROCESS CRASHED', log_tail=log[-1500:],
+                                        schedule=c11_describe(first[2], [], c11_expected(first[2])),
+                                        how='python3 tools/check.py C11 --replay <this file>  (VERIF_IN=<file with the case line> go test -overlay .. -run TestVerifC11Loop ./internal/multiplex/)'))
+            return broken
     if rc != 0 or not impl:
         broken.append(('Go driver TestVerifC11Loop (garbage through the receive loop) failed to build or run', log[-3000:]))
         return broken
@@ -916,6 +939,22 @@ def c11_loop(ctx, verdict, intensive=False):
     for cid, line, meta in cases:
         io = impl.get(cid)
         if io is None:
+            continue
+        if meta.get('relaxed'):
+            # a frame that authenticates although it was altered (known finding): only "no crash, the session and the
+            # other stream go on" is demanded here
+            got = io.split()
+            for st in meta['plan']:
+                if st[0] == 'G':
+                    for k in st[1]:
+                        kk = re.sub(r'\(.*', '', k) + '/m%d' % meta['method']
+                        kinds[kk] = kinds.get(kk, 0) + 1
+            f = got[-1].split(':') if got else []
+            s1 = [x for x in (f[4].split(',') if len(f) > 4 else []) if x.startswith('1=')]
+            ok = (not io.startswith('PANIC')) and len(got) == 3 and f[1] == '0' and got[0].endswith('1=41.') and s1 and s1[0] in ('1=43.',)
+            if not ok:
+                msg = 'the receive path panicked: ' + io[:200] if io.startswith('PANIC') else 'after a frame whose unauthenticated header bytes were altered the other stream or the session did not go on: ' + io[:200]
+                fails.append((len(line), cid, line, meta, io, msg, got, c11_expected(meta)))
             continue
         for st in meta['plan']:
             if st[0] == 'G':
